@@ -80,6 +80,8 @@ def docs(thorough):
                     out.append(dict(binding=binding, enc=enc, irt=irt, scd=[s1, s2], dest='own', aud='me', recip='own'))
                 for irt, s2 in itertools.product(IRT, SCD_IRT):
                     out.append(dict(binding=binding, enc=enc, irt=irt, scd=['NODATA', s2], dest='own', aud='me', recip='own'))
+                    out.append(dict(binding=binding, enc=enc, irt=irt, scd=['NODATA-bearer', s2], dest='own', aud='me', recip='own'))
+                    out.append(dict(binding=binding, enc=enc, irt=irt, scd=[s2, 'NODATA-bearer'], dest='own', aud='me', recip='own'))
     return out
 
 
@@ -90,6 +92,8 @@ def build(doc):
     for s in doc['scd']:
         if s == 'NODATA':
             confs.append(forge.confirmation(now, method='urn:oasis:names:tc:SAML:2.0:cm:sender-vouches', has_data=False))
+        elif s == 'NODATA-bearer':
+            confs.append(forge.confirmation(now, has_data=False))
         else:
             confs.append(forge.confirmation(now, irt=s, recipient=recip_value(doc['recip'], b, doc['dest'])))
     a = dict(confirmations=confs, audiences=AUD[doc['aud']])
@@ -102,7 +106,7 @@ def required_reject(doc, allow, conv, regex):
     why = []
     b = doc['binding']
     browser = b in (BINDING_HTTP_POST, BINDING_HTTP_REDIRECT)
-    scds = [s for s in doc['scd'] if s != 'NODATA']
+    scds = [s for s in doc['scd'] if s not in ('NODATA', 'NODATA-bearer')]
     if not allow:
         if doc['irt'] not in OUTSTANDING:
             why.append('a-response-not-solicited')
